@@ -5,6 +5,8 @@
   vectors of any lengths), EVERY sequence `cs` of `random.choice` outcomes and every padding value `one`.
 -/
 import NemoVerif.Lemmas.Conflict
+import NemoVerif.Lemmas.ConflictLink
+import NemoVerif.Models.Match
 namespace NemoVerif.C05
 open NemoVerif.Conflict List
 
@@ -34,7 +36,7 @@ theorem one_action_per_loop (one : Int) (hs : List HeadInfo) (cs : List Nat) (l 
       · rw [e]
       · rcases hf with hf | hf
         · rw [hf] at e; exact absurd e.symm (fateOf_ne_picked w p.1)
-        · rw [hf] at e; exact fateOf_cowin.1 e.symm
+        · rw [hf] at e; exact sameEv_ev (fateOf_cowin.1 e.symm)
     intro p hp q hq hpl hql hpf hqf
     rw [key p hp hpl hpf, key q hq hql hqf]
 
@@ -117,11 +119,12 @@ theorem loops_independent (one : Int) (hs : List HeadInfo) (cs : List Nat) (l : 
     rw [groupsOf_same l x xs hall]
     simp [resolveGroups]
 
-/-- `identical_cowin`: a head of the winner's loop whose action event equals the winner's advances as co-winner
-    (whatever its score vector). -/
+/-- `identical_cowin`: a head of the winner's loop whose action event is the same as the winner's (`sameEv`: equal name
+    and arguments; for two different action instances only the Start event) advances as co-winner, whatever its
+    score vector. -/
 theorem identical_cowin (one : Int) (hs : List HeadInfo) (cs : List Nat) (w h : HeadInfo)
     (hw : (w, Fate.picked) ∈ resolveFates one hs cs) (hh : h ∈ hs) (hl : h.loop = w.loop) (hu : h.uid ≠ w.uid)
-    (he : h.ev = w.ev) : (h, Fate.cowin) ∈ resolveFates one hs cs := by
+    (he : sameEv w h = true) : (h, Fate.cowin) ∈ resolveFates one hs cs := by
   have hex : ∃ x ∈ hs, x.loop = w.loop := ⟨h, hh, hl⟩
   have hw' : (w, Fate.picked) ∈ (resolveFates one hs cs).filter (fun p => p.1.loop == w.loop) :=
     mem_filter.2 ⟨hw, by simp⟩
@@ -133,11 +136,17 @@ theorem identical_cowin (one : Int) (hs : List HeadInfo) (cs : List Nat) (w h : 
   rw [fateOf_cowin.2 he, ← fates_of_loop one hs cs w.loop hex] at this
   exact (mem_filter.1 this).1
 
+/-- the property's case: flows that try to START an identical action (equal name and arguments) all proceed -/
+theorem identical_start_cowin (one : Int) (hs : List HeadInfo) (cs : List Nat) (w h : HeadInfo)
+    (hw : (w, Fate.picked) ∈ resolveFates one hs cs) (hh : h ∈ hs) (hl : h.loop = w.loop) (hu : h.uid ≠ w.uid)
+    (he : h.ev = w.ev) (hst : w.isStart = true) : (h, Fate.cowin) ∈ resolveFates one hs cs :=
+  identical_cowin one hs cs w h hw hh hl hu (sameEv_of_start he hst)
+
 /-- … and every other head of the winner's loop loses: it is forwarded to its catch label if it has one, otherwise
     its flow is aborted ("all the others fail"). -/
 theorem losers_fail (one : Int) (hs : List HeadInfo) (cs : List Nat) (w h : HeadInfo)
     (hw : (w, Fate.picked) ∈ resolveFates one hs cs) (hh : h ∈ hs) (hl : h.loop = w.loop) (hu : h.uid ≠ w.uid)
-    (he : h.ev ≠ w.ev) :
+    (he : sameEv w h = false) :
     (h, if h.catchLbl then Fate.caught else Fate.aborted) ∈ resolveFates one hs cs := by
   have hex : ∃ x ∈ hs, x.loop = w.loop := ⟨h, hh, hl⟩
   have hw' : (w, Fate.picked) ∈ (resolveFates one hs cs).filter (fun p => p.1.loop == w.loop) :=
@@ -199,11 +208,156 @@ theorem shared_action_cowin_as_is_counterexample :
     scopeOf 10 (cowinEffect ⟨1, 1, 1, [5], 1, some 10, 1, false, false⟩ ⟨2, 2, 1, [5], 1, some 10, 1, false, false⟩ [(10, 2)]) = some 2 := by
   decide
 
+/-- The co-winner test of the UNPATCHED source (`Event.is_equal` alone) lets the Stop events of two DIFFERENT action
+    instances co-win (open finding `identical-event-of-different-actions`): head 2 stops action 11 while the picked head 1
+    stops action 10 — as is: co-winner (action 11 is dropped, never stopped); repaired (`sameEv`): a loser, its flow is
+    aborted.  Finite witness, by evaluation. -/
+theorem identical_event_of_different_actions_as_is_counterexample :
+    fateOfAsIs ⟨1, 1, 1, [5], 1, some 10, 1, false, false⟩ ⟨2, 2, 1, [5], 1, some 11, 1, false, false⟩ = Fate.cowin ∧
+    fateOf ⟨1, 1, 1, [5], 1, some 10, 1, false, false⟩ ⟨2, 2, 1, [5], 1, some 11, 1, false, false⟩ = Fate.aborted ∧
+    fateOf ⟨1, 1, 1, [5], 1, some 10, 1, true, false⟩ ⟨2, 2, 1, [5], 1, some 11, 1, true, false⟩ = Fate.cowin := by
+  decide
+
 /-- A head that is not in the input (its match did not fit: score 0, never actionable) has no fate: the function
     touches only its input heads. -/
 theorem only_input_heads (one : Int) (hs : List HeadInfo) (cs : List Nat) (p : HeadInfo × Fate)
     (hp : p ∈ resolveFates one hs cs) : p.1 ∈ hs :=
   mem_fates_fst hp
+
+/-! ### The ranks are the matcher's scores
+
+  The harness hands `resolve` the RANK of every float of a call.  The theorems below tie that order to the matcher
+  (`Match.eventScore`, C04): an entry of `matching_scores` is `prio · (num/den)^k`; `mlt` compares such numbers exactly
+  (integers, cross-multiplied).  `r` is any rank function that respects the exact order (`hr`; checked on every run: the
+  driver's `mcmp` against the floats the real `_compute_event_comparison_score` returns). -/
+
+/-- the fuzzy-match base of the CURRENT source (translator-generated constants) is a proper fraction
+    (same fact as `C04.base_lt_one`, re-checked here against `Generated.C04`) -/
+theorem base_lt_one : 0 < Generated.C04.scoreBaseNum ∧ Generated.C04.scoreBaseNum < Generated.C04.scoreBaseDen := by decide
+
+abbrev bnum := Generated.C04.scoreBaseNum
+abbrev bden := Generated.C04.scoreBaseDen
+
+/-- `better_score_wins`: if, at the first position where the score vectors of two heads of one loop differ, head A's
+    score is exactly greater than head B's, then B is not the picked head of their loop — for every tie-break. -/
+theorem better_score_wins (r : MScore → Int) (hr : ∀ x y, mlt bnum bden x y → r x < r y)
+    (one : Int) (hs : List HeadInfo) (cs : List Nat) (A B : HeadInfo) (hA : A ∈ hs) (hl : A.loop = B.loop)
+    (pre : List Int) (a b : MScore) (ta tb : List Int)
+    (hsa : A.scores = pre ++ r a :: ta) (hsb : B.scores = pre ++ r b :: tb) (hab : mlt bnum bden b a) :
+    (B, Fate.picked) ∉ resolveFates one hs cs := by
+  intro hB
+  have hmax := winner_is_max one hs cs B hB A hA hl
+  rw [hsa, hsb, padTo_split, padTo_split, lexLe_prefix_lt pre (hr b a hab)] at hmax
+  exact Bool.false_ne_true hmax
+
+/-- `more_specific_wins`: both flows matched the same event under the same flow priority; at the first differing
+    position of the score vectors A's match statement left FEWER parameters of the event unmentioned
+    (`Match.eventScore`'s exponent: kA < kB).  Then B is not picked: the most specific match wins. -/
+theorem more_specific_wins (rx : Match.Rx) (sa : String → Option (List (String × Val))) (ev refA refB : Match.Ev)
+    (p pA pB : Option (Int × Nat)) (kA kB : Int)
+    (hEA : Match.eventScore rx sa ev refA p = .pos kA pA) (hEB : Match.eventScore rx sa ev refB p = .pos kB pB)
+    (hk0 : 0 ≤ kA) (hlt : kA < kB) (hp : 0 < (MScore.mk 0 p).pnum)
+    (r : MScore → Int) (hr : ∀ x y, mlt bnum bden x y → r x < r y)
+    (one : Int) (hs : List HeadInfo) (cs : List Nat) (A B : HeadInfo) (hA : A ∈ hs) (hl : A.loop = B.loop)
+    (pre ta tb : List Int)
+    (hsa : A.scores = pre ++ r ⟨kA.toNat, pA⟩ :: ta) (hsb : B.scores = pre ++ r ⟨kB.toNat, pB⟩ :: tb) :
+    (B, Fate.picked) ∉ resolveFates one hs cs := by
+  have hprio : ∀ (ref : Match.Ev) (k : Int) (q : Option (Int × Nat)), Match.eventScore rx sa ev ref p = .pos k q → q = p := by
+    intro ref k q h
+    unfold Match.eventScore at h
+    split at h
+    · injection h with _ h2; exact h2.symm
+    · rename_i hne; exact absurd h (by intro e; exact hne k q e)
+  have e1 := hprio refA kA pA hEA
+  have e2 := hprio refB kB pB hEB
+  rw [e1] at hsa; rw [e2] at hsb
+  refine better_score_wins r hr one hs cs A B hA hl pre ⟨kA.toNat, p⟩ ⟨kB.toNat, p⟩ ta tb hsa hsb ?_
+  exact mlt_of_more_unmentioned base_lt_one.1 base_lt_one.2 ⟨kA.toNat, p⟩ ⟨kB.toNat, p⟩ rfl hp (by simp only; omega)
+
+/-- non-vacuity of `hr` and of the exact order: 0.9^1 < 1.0·0.9^0, and priority 1/2 on a perfect match loses against
+    an unscaled match with one unmentioned parameter (5/10 < 9/10).  Finite facts, by evaluation. -/
+example : mlt bnum bden ⟨1, none⟩ ⟨0, none⟩ ∧ mlt bnum bden ⟨0, some (1, 1)⟩ ⟨1, none⟩ ∧ ¬ mlt bnum bden ⟨2, none⟩ ⟨2, none⟩ := by decide
+
+/-- A vector that ends is padded with the perfect score: a head whose vector is a proper prefix of another head's beats
+    it as soon as the other head's next match is not perfect ([0.9] beats [0.9, 0.5]). -/
+theorem shorter_chain_beats_imperfect_continuation (r : MScore → Int) (hr : ∀ x y, mlt bnum bden x y → r x < r y)
+    (hs : List HeadInfo) (cs : List Nat) (A B : HeadInfo) (hA : A ∈ hs) (hBm : B ∈ hs) (hl : A.loop = B.loop)
+    (pre : List Int) (b : MScore) (tb : List Int)
+    (hsa : A.scores = pre) (hsb : B.scores = pre ++ r b :: tb) (hb : mlt bnum bden b MScore.perfect) :
+    (B, Fate.picked) ∉ resolveFates (r MScore.perfect) hs cs := by
+  intro hB
+  have hmax := winner_is_max (r MScore.perfect) hs cs B hB A hA hl
+  have hlen : pre.length < maxLen (hs.filter (fun x => x.loop == B.loop)) := by
+    have := mem_maxLen_le (g := hs.filter (fun x => x.loop == B.loop)) (h := B) (mem_filter.2 ⟨hBm, by simp⟩)
+    rw [hsb] at this; simp at this; omega
+  rw [hsa, hsb, padTo_short _ _ pre hlen, padTo_split, lexLe_prefix_lt pre (hr b _ hb)] at hmax
+  exact Bool.false_ne_true hmax
+
+/-! ### `nonmatching_untouched`
+
+  Matching phase of one internal event = C10's model of the repaired tree (`ErrContain.scanLookup false`, proved there to
+  compute `matchPhaseRepaired`), followed by the post-scan aborts (`ConflictLink.postScan`).  The whole-interpreter model
+  `CoreVM.processEvent` is a monadic loop nest without frame lemmas yet; this fragment is the part of it the statement
+  needs (the three result lists and the writes to instance records). -/
+
+open NemoVerif.ErrContain NemoVerif.ConflictLink in
+/-- A head whose match score for the event is 0 ("did not fit"):
+    (i) the candidate scan changes NO instance record (only `ColangError` events are queued);
+    (ii) the head is in none of `heads_matching / heads_failing / heads_erroring`, so it is not handed to
+         `_advance_head_front`;
+    (iii) every head that `_resolve_action_conflicts` receives from this event — hence every fate it assigns — belongs to
+          a candidate with a NON-zero score;
+    (iv) the aborts after the scan leave every instance whose flow is not one of the aborted (failing / erroring) flows
+         unchanged except, possibly, for its list of child flows (when a child failed). -/
+theorem nonmatching_untouched (caught : Cand → Bool) (info : Cand → Option HeadInfo) (s : St) (cands : List Cand)
+    (hp : ∀ c ∈ cands, headPresent s c = true) (c : Cand) (hz : c.score = .zero) :
+    ∃ s1 out, scanLookup false s cands = some (s1, out) ∧
+      s1.insts = s.insts ∧
+      (c ∉ advancedHeads caught out ∧ c ∉ out.failing ∧ c ∉ out.erroring) ∧
+      (∀ (one : Int) (cs : List Nat) (p : HeadInfo × Fate), p ∈ resolveFates one (conflictInputs info caught out) cs →
+          ∃ c' ∈ cands, c'.score ≠ .zero ∧ info c' = some p.1) ∧
+      Upd (KeepsButChildren (abortedByPhase caught out)) s (postScan caught s1 out) := by
+  obtain ⟨s1, h1, h2, _⟩ := scanLookup_safe cands s hp
+  obtain ⟨z1, z2, z3⟩ := zero_not_selected cands c hz
+  refine ⟨s1, matchPhaseRepaired cands, h1, h2, ⟨?_, z2, z3⟩, ?_, upd_of_insts_eq h2 (postScan_upd caught s1 _)⟩
+  · simp only [advancedHeads, mem_append, not_or]
+    exact ⟨z1, fun h => z2 (mem_filter.1 h).1⟩
+  · intro one cs p hp'
+    have hin := mem_fates_fst hp'
+    simp only [conflictInputs, mem_filterMap] at hin
+    obtain ⟨c', hc', hi⟩ := hin
+    have hsel : c' ∈ (matchPhaseRepaired cands).matching ∨ c' ∈ (matchPhaseRepaired cands).failing ∨
+        c' ∈ (matchPhaseRepaired cands).erroring := by
+      simp only [advancedHeads, mem_append] at hc'
+      rcases hc' with h | h
+      · exact Or.inl h
+      · exact Or.inr (Or.inl (mem_filter.1 h).1)
+    obtain ⟨hm, hnz⟩ := selected_nonzero cands c' hsel
+    exact ⟨c', hm, hnz, hi⟩
+
+open NemoVerif.ErrContain NemoVerif.ConflictLink in
+/-- … in particular the instance record of a flow none of whose heads failed or raised is, after the whole matching
+    phase, the record it was before the event up to its child list. -/
+theorem nonmatching_instance_kept (caught : Cand → Bool) (s : St) (cands : List Cand)
+    (hp : ∀ c ∈ cands, headPresent s c = true) (k : Nat) (i : Inst) (hi : s.insts[k]? = some i)
+    (hno : i.uid ∉ abortedByPhase caught (matchPhaseRepaired cands)) :
+    ∃ s1, scanLookup false s cands = some (s1, matchPhaseRepaired cands) ∧
+      ∃ i', (postScan caught s1 (matchPhaseRepaired cands)).insts[k]? = some i' ∧ i' = ({ i with children := i'.children } : Inst) := by
+  obtain ⟨s1, h1, h2, _⟩ := scanLookup_safe cands s hp
+  have hu := upd_of_insts_eq h2 (postScan_upd caught s1 (matchPhaseRepaired cands))
+  obtain ⟨i', hk, hr⟩ := hu.2 k i hi
+  exact ⟨s1, h1, i', hk, hr.2 hno⟩
+
+/-! non-vacuity: two flows wait for the event, flow 1 matches, flow 2 has score 0 — finite facts, by evaluation. -/
+def exInst (u h : Nat) : NemoVerif.ErrContain.Inst :=
+  { uid := u, flowId := u, status := .started, activated := 0, newInstanceStarted := false, parent := none, children := [],
+    heads := [{ uid := h, pos := 1, status := .active, cstack := [] }] }
+def exState : NemoVerif.ErrContain.St := { insts := [exInst 1 7, exInst 2 8], queue := [] }
+def exCands : List NemoVerif.ErrContain.Cand := [{ fuid := 1, huid := 7, score := .pos 1 }, { fuid := 2, huid := 8, score := .zero }]
+
+example : (∀ c ∈ exCands, NemoVerif.ErrContain.headPresent exState c = true) ∧
+    (NemoVerif.ErrContain.matchPhaseRepaired exCands).matching = [{ fuid := 1, huid := 7, score := .pos 1 }] := by
+  decide
 
 /-- The sort of the model is the core library's stable merge sort with the same comparator (stability of Python's
     `sorted(..., reverse=True)` is the modelled assumption). -/
